@@ -1,9 +1,17 @@
 /-
 C14  Microgrids island and reconnect according to their operating mode.
+
+Step theorems (trip with the distribution network, survival hold, support modes reconnect when the
+timer has run out, microgrid faults stay local, the microgrid timer tracks its parent) and, over whole
+histories: at every reachable state a SURVIVAL microgrid that is separated stays separated through any
+increment at whose end its distribution network still has a failed line (`survival_history`,
+`survival_history_auto`), using the invariant that every network with a failed line is flagged
+(`reach_flagged`).
 -/
 import Relsad.Model.Control
 import Relsad.Lemmas.ControlL
 import Relsad.Props.C05
+import Relsad.Lemmas.ControlNfL
 
 namespace Relsad.C14
 open Relsad.Control
@@ -80,5 +88,234 @@ theorem mg_timer_tracks_parent (s : St) (n : Nat) (dt : ℚ) :
   split_ifs with h
   · exact le_refl _
   · exact not_lt.mp h
+
+
+/-! ### survival mode over whole histories -/
+
+/-- what is carried through an increment: the distribution network `p` is flagged as having a failed line, and the
+breaker of the SURVIVAL microgrid `m` is open -/
+private def Keep (C : Cfg) (m p : Nat) (x : St) : Prop :=
+  gb x.netFailed p = true ∧ gb x.cbOpen (netOf C m).cb = true
+
+private theorem keep_distLoop (C : Cfg) (w : WF C) (m p n : Nat) (hm : m < C.nets.length) (hn : n < C.nets.length) (hnm : n ≠ m)
+    (x : St) (dt : ℚ) (h : Keep C m p x) : Keep C m p (distLoop C x n dt) := by
+  refine ⟨by rw [(nf_distLoop C x n dt).1]; exact h.1, ?_⟩
+  have hc : (netOf C m).cb ≠ (C.nets.getD n default).cb := fun e => hnm (w.cb_inj m n hm hn e.symm)
+  unfold distLoop
+  simp only []
+  exact loopCore_other_open C n { x with timer := x.timer.set n (tick (gr x.timer n) dt) } (fun y => checkLinesManually C y n)
+    (fun a => (C.nets.getD n default).children.foldl (fun (s : St) k =>
+        if gb s.cbOpen (C.nets.getD k default).cb then { s with pTimer := s.pTimer.set k (gr s.timer n) } else s) a)
+    (fun a => checkLinesManually_cbOpen C a n) (fun a => (childFold_fields C n _ a).2.2.1) _ hc h.2
+
+private theorem keep_distLoopA (C : Cfg) (w : WF C) (m p n : Nat) (hm : m < C.nets.length) (hn : n < C.nets.length) (hnm : n ≠ m)
+    (x : St) (dt : ℚ) (cm : Comm) (h : Keep C m p x) : Keep C m p (distLoopA C x n dt cm) := by
+  refine ⟨by rw [(nf_distLoopA C x n dt cm).1]; exact h.1, ?_⟩
+  have hc : (netOf C m).cb ≠ (C.nets.getD n default).cb := fun e => hnm (w.cb_inj m n hm hn e.symm)
+  unfold distLoopA
+  simp only []
+  exact loopCore_other_open C n { x with timer := x.timer.set n (tick (gr x.timer n) dt) } (fun y => checkSensors C y n cm)
+    (fun a => (C.nets.getD n default).children.foldl (fun (s : St) k =>
+        if gb s.cbOpen (C.nets.getD k default).cb then { s with pTimer := s.pTimer.set k (gr s.timer n) } else s) a)
+    (fun a => checkSensors_cbOpen C a n cm) (fun a => (childFold_fields C n _ a).2.2.1) _ hc h.2
+
+private theorem keep_mgLoop (C : Cfg) (w : WF C) (m p n : Nat) (hm : m < C.nets.length) (hn : n < C.nets.length)
+    (hmode : (netOf C m).mode = some .survival) (hpar : (netOf C m).parent = some p)
+    (x : St) (dt : ℚ) (h : Keep C m p x) : Keep C m p (mgLoop C x n dt) := by
+  refine ⟨by rw [(nf_mgLoop C x n dt).1]; exact h.1, ?_⟩
+  unfold mgLoop
+  simp only []
+  by_cases hnm : n = m
+  · subst hnm
+    exact loopCore_hold C n
+      ({ x with timer := x.timer.set n (if gr x.pTimer n > tick (gr x.timer n) dt then gr x.pTimer n else tick (gr x.timer n) dt),
+                pTimer := x.pTimer.set n (tick (gr x.pTimer n) dt) } : St)
+      (fun y => checkLinesManually C y n) (fun a => a)
+      (fun a => ⟨checkLinesManually_cbOpen C a n, (nf_checkLinesManually C a n).1⟩) (fun _ => ⟨rfl, rfl⟩) p hmode hpar h.1 h.2
+  · have hc : (netOf C m).cb ≠ (C.nets.getD n default).cb := fun e => hnm (w.cb_inj m n hm hn e.symm)
+    exact loopCore_other_open C n
+      ({ x with timer := x.timer.set n (if gr x.pTimer n > tick (gr x.timer n) dt then gr x.pTimer n else tick (gr x.timer n) dt),
+                pTimer := x.pTimer.set n (tick (gr x.pTimer n) dt) } : St)
+      (fun y => checkLinesManually C y n) (fun a => a) (fun a => checkLinesManually_cbOpen C a n) (fun _ => rfl) _ hc h.2
+
+private theorem keep_mgLoopA (C : Cfg) (w : WF C) (m p n : Nat) (hm : m < C.nets.length) (hn : n < C.nets.length)
+    (hmode : (netOf C m).mode = some .survival) (hpar : (netOf C m).parent = some p)
+    (x : St) (dt : ℚ) (cm : Comm) (h : Keep C m p x) : Keep C m p (mgLoopA C x n dt cm) := by
+  refine ⟨by rw [(nf_mgLoopA C x n dt cm).1]; exact h.1, ?_⟩
+  unfold mgLoopA
+  simp only []
+  by_cases hnm : n = m
+  · subst hnm
+    exact loopCore_hold C n
+      ({ x with timer := x.timer.set n (if gr x.pTimer n > tick (gr x.timer n) dt then gr x.pTimer n else tick (gr x.timer n) dt),
+                pTimer := x.pTimer.set n (tick (gr x.pTimer n) dt) } : St)
+      (fun y => checkSensors C y n cm) (fun a => a)
+      (fun a => ⟨checkSensors_cbOpen C a n cm, (nf_checkSensors C a n cm).1⟩) (fun _ => ⟨rfl, rfl⟩) p hmode hpar h.1 h.2
+  · have hc : (netOf C m).cb ≠ (C.nets.getD n default).cb := fun e => hnm (w.cb_inj m n hm hn e.symm)
+    exact loopCore_other_open C n
+      ({ x with timer := x.timer.set n (if gr x.pTimer n > tick (gr x.timer n) dt then gr x.pTimer n else tick (gr x.timer n) dt),
+                pTimer := x.pTimer.set n (tick (gr x.pTimer n) dt) } : St)
+      (fun y => checkSensors C y n cm) (fun a => a) (fun a => checkSensors_cbOpen C a n cm) (fun _ => rfl) _ hc h.2
+
+private theorem keep_foldl {C : Cfg} {m p : Nat} (f : St → Nat → St) (l : List Nat) (P : Nat → Prop) (hP : ∀ a ∈ l, P a)
+    (hf : ∀ x a, P a → Keep C m p x → Keep C m p (f x a)) (x : St) (h : Keep C m p x) : Keep C m p (l.foldl f x) := by
+  induction l generalizing x with
+  | nil => exact h
+  | cons a as ih =>
+    simp only [List.foldl_cons]
+    exact ih (fun y hy => hP y (List.mem_cons_of_mem _ hy)) _ (hf x a (hP a List.mem_cons_self) h)
+
+/-- every reachable state flags the networks that have a failed line -/
+theorem reach_flagged (C : Cfg) (w : WF C) : ∀ s, C05.ReachA C s → Flagged C s ∧ s.netFailed.length = C.nets.length := by
+  intro s hs
+  induction hs with
+  | init => exact ⟨Flagged.init C, by simp [St.init]⟩
+  | fail s l rep _ hl _ ih =>
+    refine ⟨ih.1.afterFail w ih.2 l hl rep, ?_⟩
+    unfold lineFail
+    simp only
+    split_ifs
+    · rw [(nf_foldl_eq (fun s m => cbOpenOp C s (C.nets.getD m default).cb) (fun s' m => nf_cbOpenOp C s' _) _ _).1,
+        (nf_cbOpenOp C _ _).1]
+      simp [ih.2]
+    · simp [ih.2]
+  | step s dt _ _ ih =>
+    unfold step
+    simp only []
+    have h1 : Flagged C ((List.range C.lines.length).foldl (fun s l => lineUpdate C s l dt) s) ∧
+        ((List.range C.lines.length).foldl (fun s l => lineUpdate C s l dt) s).netFailed.length = C.nets.length := by
+      have key : ∀ (ls : List Nat), (∀ l ∈ ls, l < C.lines.length) → ∀ x : St, Flagged C x → x.netFailed.length = C.nets.length →
+          Flagged C (ls.foldl (fun s l => lineUpdate C s l dt) x) ∧ (ls.foldl (fun s l => lineUpdate C s l dt) x).netFailed.length = C.nets.length := by
+        intro ls
+        induction ls with
+        | nil => intro _ x hx hl; exact ⟨hx, hl⟩
+        | cons a as ih' =>
+          intro hin x hx hl
+          simp only [List.foldl_cons]
+          refine ih' (fun l hl' => hin l (List.mem_cons_of_mem _ hl')) _ (hx.afterUpdate w a (hin a List.mem_cons_self) dt) ?_
+          have nfl : ∀ y : St, (lineNotFail C y a).netFailed.length = y.netFailed.length := by
+            intro y; unfold lineNotFail; simp only; split_ifs <;> simp
+          unfold lineUpdate
+          simp only []
+          split_ifs
+          · show (lineNotFail C _ a).netFailed.length = _
+            rw [nfl]; exact hl
+          · exact hl
+          · rw [nfl]; exact hl
+      exact key _ (fun l hl => List.mem_range.mp hl) s ih.1 ih.2
+    have h2 := nf_foldl_eq (fun s n => distLoop C s n dt) (fun s' n => nf_distLoop C s' n dt)
+      ((List.range C.nets.length).filter (fun n => !isMg C n)) ((List.range C.lines.length).foldl (fun s l => lineUpdate C s l dt) s)
+    have h3 := nf_foldl_eq (fun s n => mgLoop C s n dt) (fun s' n => nf_mgLoop C s' n dt)
+      ((List.range C.nets.length).filter (fun n => isMg C n))
+      (((List.range C.nets.length).filter (fun n => !isMg C n)).foldl (fun s n => distLoop C s n dt) ((List.range C.lines.length).foldl (fun s l => lineUpdate C s l dt) s))
+    exact ⟨h1.1.congr (h3.2.trans h2.2) (h3.1.trans h2.1), by rw [h3.1, h2.1]; exact h1.2⟩
+  | stepA s dt cm _ _ ih =>
+    unfold stepA
+    simp only []
+    have h1 : Flagged C ((List.range C.lines.length).foldl (fun s l => lineUpdate C s l dt) s) ∧
+        ((List.range C.lines.length).foldl (fun s l => lineUpdate C s l dt) s).netFailed.length = C.nets.length := by
+      have key : ∀ (ls : List Nat), (∀ l ∈ ls, l < C.lines.length) → ∀ x : St, Flagged C x → x.netFailed.length = C.nets.length →
+          Flagged C (ls.foldl (fun s l => lineUpdate C s l dt) x) ∧ (ls.foldl (fun s l => lineUpdate C s l dt) x).netFailed.length = C.nets.length := by
+        intro ls
+        induction ls with
+        | nil => intro _ x hx hl; exact ⟨hx, hl⟩
+        | cons a as ih' =>
+          intro hin x hx hl
+          simp only [List.foldl_cons]
+          refine ih' (fun l hl' => hin l (List.mem_cons_of_mem _ hl')) _ (hx.afterUpdate w a (hin a List.mem_cons_self) dt) ?_
+          have nfl : ∀ y : St, (lineNotFail C y a).netFailed.length = y.netFailed.length := by
+            intro y; unfold lineNotFail; simp only; split_ifs <;> simp
+          unfold lineUpdate
+          simp only []
+          split_ifs
+          · show (lineNotFail C _ a).netFailed.length = _
+            rw [nfl]; exact hl
+          · exact hl
+          · rw [nfl]; exact hl
+      exact key _ (fun l hl => List.mem_range.mp hl) s ih.1 ih.2
+    have h2 := nf_foldl_eq (fun s n => distLoopA C s n dt cm) (fun s' n => nf_distLoopA C s' n dt cm)
+      ((List.range C.nets.length).filter (fun n => !isMg C n)) ((List.range C.lines.length).foldl (fun s l => lineUpdate C s l dt) s)
+    have h3 := nf_foldl_eq (fun s n => mgLoopA C s n dt cm) (fun s' n => nf_mgLoopA C s' n dt cm)
+      ((List.range C.nets.length).filter (fun n => isMg C n))
+      (((List.range C.nets.length).filter (fun n => !isMg C n)).foldl (fun s n => distLoopA C s n dt cm) ((List.range C.lines.length).foldl (fun s l => lineUpdate C s l dt) s))
+    exact ⟨h1.1.congr (h3.2.trans h2.2) (h3.1.trans h2.1), by rw [h3.1, h2.1]; exact h1.2⟩
+
+
+private theorem lineUpdates_flagged (C : Cfg) (w : WF C) (dt : ℚ) (ls : List Nat) (hin : ∀ l ∈ ls, l < C.lines.length) (x : St)
+    (hx : Flagged C x) : Flagged C (ls.foldl (fun s l => lineUpdate C s l dt) x) := by
+  induction ls generalizing x with
+  | nil => exact hx
+  | cons a as ih =>
+    simp only [List.foldl_cons]
+    exact ih (fun l hl' => hin l (List.mem_cons_of_mem _ hl')) _ (hx.afterUpdate w a (hin a List.mem_cons_self) dt)
+
+private theorem lineUpdates_cbOpen (C : Cfg) (dt : ℚ) (ls : List Nat) (x : St) :
+    (ls.foldl (fun s l => lineUpdate C s l dt) x).cbOpen = x.cbOpen := by
+  induction ls generalizing x with
+  | nil => rfl
+  | cons a as ih => simp only [List.foldl_cons]; rw [ih, (lineUpdate_sw C x a dt).2.1]
+
+/-- **Survival mode, over whole histories** (manual increments): at every reachable state, a SURVIVAL microgrid whose
+breaker is open is still separated after the next increment whenever its distribution network still has a failed line
+at the end of that increment — whatever else happens in the increment (repairs of other lines, timers running out,
+other controllers reclosing). -/
+theorem survival_history (C : Cfg) (hC : wfB C = true) (s : St) (hs : C05.ReachA C s) (m p : Nat)
+    (hm : m < C.nets.length) (hp : p < C.nets.length)
+    (hmode : (netOf C m).mode = some .survival) (hpar : (netOf C m).parent = some p)
+    (hopen : gb s.cbOpen (netOf C m).cb = true) (dt : ℚ)
+    (hfail : ∃ l ∈ (netOf C p).lines, gb (step C s dt).failed l = true) :
+    gb (step C s dt).cbOpen (netOf C m).cb = true := by
+  have w := WF.of_wfB C hC
+  obtain ⟨l, hl, hfl⟩ := hfail
+  have hmg : isMg C m = true := by unfold isMg; rw [show C.nets.getD m default = netOf C m from rfl, hmode]; rfl
+  unfold step at hfl ⊢
+  simp only [] at hfl ⊢
+  set s1 := (List.range C.lines.length).foldl (fun s l => lineUpdate C s l dt) s with hs1
+  have h2 := nf_foldl_eq (fun s n => distLoop C s n dt) (fun s' n => nf_distLoop C s' n dt)
+    ((List.range C.nets.length).filter (fun n => !isMg C n)) s1
+  have h3 := nf_foldl_eq (fun s n => mgLoop C s n dt) (fun s' n => nf_mgLoop C s' n dt)
+    ((List.range C.nets.length).filter (fun n => isMg C n))
+    (((List.range C.nets.length).filter (fun n => !isMg C n)).foldl (fun s n => distLoop C s n dt) s1)
+  rw [h3.2, h2.2] at hfl
+  have hfl1 : Flagged C s1 := lineUpdates_flagged C w dt _ (fun l hl => List.mem_range.mp hl) s (reach_flagged C w s hs).1
+  have k1 : Keep C m p s1 := ⟨hfl1 p hp l hl hfl, by rw [hs1, lineUpdates_cbOpen]; exact hopen⟩
+  have k2 : Keep C m p (((List.range C.nets.length).filter (fun n => !isMg C n)).foldl (fun s n => distLoop C s n dt) s1) := by
+    refine keep_foldl _ _ (fun n => n < C.nets.length ∧ n ≠ m) ?_ (fun x n hn hk => keep_distLoop C w m p n hm hn.1 hn.2 x dt hk) s1 k1
+    intro n hn
+    have := List.mem_filter.mp hn
+    refine ⟨List.mem_range.mp this.1, ?_⟩
+    intro e; rw [e, hmg] at this; simp at this
+  exact (keep_foldl _ _ (fun n => n < C.nets.length) (fun n hn => List.mem_range.mp (List.mem_filter.mp hn).1)
+    (fun x n hn hk => keep_mgLoop C w m p n hm hn hmode hpar x dt hk) _ k2).2
+
+/-- … and under ICT-based control, whatever the controllers can reach. -/
+theorem survival_history_auto (C : Cfg) (hC : wfB C = true) (s : St) (hs : C05.ReachA C s) (m p : Nat)
+    (hm : m < C.nets.length) (hp : p < C.nets.length)
+    (hmode : (netOf C m).mode = some .survival) (hpar : (netOf C m).parent = some p)
+    (hopen : gb s.cbOpen (netOf C m).cb = true) (dt : ℚ) (cm : Comm)
+    (hfail : ∃ l ∈ (netOf C p).lines, gb (stepA C s dt cm).failed l = true) :
+    gb (stepA C s dt cm).cbOpen (netOf C m).cb = true := by
+  have w := WF.of_wfB C hC
+  obtain ⟨l, hl, hfl⟩ := hfail
+  have hmg : isMg C m = true := by unfold isMg; rw [show C.nets.getD m default = netOf C m from rfl, hmode]; rfl
+  unfold stepA at hfl ⊢
+  simp only [] at hfl ⊢
+  set s1 := (List.range C.lines.length).foldl (fun s l => lineUpdate C s l dt) s with hs1
+  have h2 := nf_foldl_eq (fun s n => distLoopA C s n dt cm) (fun s' n => nf_distLoopA C s' n dt cm)
+    ((List.range C.nets.length).filter (fun n => !isMg C n)) s1
+  have h3 := nf_foldl_eq (fun s n => mgLoopA C s n dt cm) (fun s' n => nf_mgLoopA C s' n dt cm)
+    ((List.range C.nets.length).filter (fun n => isMg C n))
+    (((List.range C.nets.length).filter (fun n => !isMg C n)).foldl (fun s n => distLoopA C s n dt cm) s1)
+  rw [h3.2, h2.2] at hfl
+  have hfl1 : Flagged C s1 := lineUpdates_flagged C w dt _ (fun l hl => List.mem_range.mp hl) s (reach_flagged C w s hs).1
+  have k1 : Keep C m p s1 := ⟨hfl1 p hp l hl hfl, by rw [hs1, lineUpdates_cbOpen]; exact hopen⟩
+  have k2 : Keep C m p (((List.range C.nets.length).filter (fun n => !isMg C n)).foldl (fun s n => distLoopA C s n dt cm) s1) := by
+    refine keep_foldl _ _ (fun n => n < C.nets.length ∧ n ≠ m) ?_ (fun x n hn hk => keep_distLoopA C w m p n hm hn.1 hn.2 x dt cm hk) s1 k1
+    intro n hn
+    have := List.mem_filter.mp hn
+    refine ⟨List.mem_range.mp this.1, ?_⟩
+    intro e; rw [e, hmg] at this; simp at this
+  exact (keep_foldl _ _ (fun n => n < C.nets.length) (fun n hn => List.mem_range.mp (List.mem_filter.mp hn).1)
+    (fun x n hn hk => keep_mgLoopA C w m p n hm hn hmode hpar x dt cm hk) _ k2).2
 
 end Relsad.C14
